@@ -227,3 +227,18 @@ Theorem C09_text_between_reads_the_tokens : forall s from to sep leaf doc,
   text_between s doc from to sep leaf = Ok (tbt s sep leaf (seg (ftoks s (node_content doc)) from to) true).
 Proof. intros s from to sep leaf doc H. exact (text_between_tokens s from to sep leaf H doc). Qed.
 Print Assumptions C09_text_between_reads_the_tokens.
+
+(* the hypotheses are met: over the example document doc(p("ab"), blockquote(p("cd"), p("ef"))) of Properties/C01.v, the text
+   between 2 and 11 with "\n" between blocks is "b\ncd\ne" (the blockquote and the paragraphs inside it open inside the range;
+   the first paragraph was opened before it) *)
+From Coq Require Import NArith.
+From PM Require Properties.C01.
+Example C09_text_between_example :
+  let s := Properties.C01.ex_schema in let doc := Properties.C01.ex_doc in
+  wfw s doc /\ 11 <= frag_size s (node_content doc) /\
+  text_between s doc 2 11 [10%N] [] = Ok [98%N; 10%N; 99%N; 100%N; 10%N; 101%N] /\
+  tbt s [10%N] [] (seg (ftoks s (node_content doc)) 2 11) true = [98%N; 10%N; 99%N; 100%N; 10%N; 101%N].
+Proof.
+  cbv zeta. split; [|split; [vm_compute; lia|split; vm_compute; reflexivity]].
+  cbn. repeat split; try discriminate; vm_compute; lia.
+Qed.
